@@ -56,17 +56,16 @@ func (x *Exec) doCall(st *State, fr *Frame, in ssa.Instruction, call *ssa.CallCo
 	for _, a := range call.Args {
 		args = append(args, x.get(fr, a))
 	}
+	if st.calls == nil {
+		st.calls = map[string]int{}
+	}
 	if b, ok := call.Value.(*ssa.Builtin); ok && !call.IsInvoke() {
+		st.calls[calleeName(call)]++
 		x.builtin(st, fr, in, b, call, args, k)
 		return
 	}
 	x.callSiteObligations(st, fr, in, call, args)
-	if fr.parent == nil || true {
-		if st.calls == nil {
-			st.calls = map[string]int{}
-		}
-		st.calls[calleeName(call)]++
-	}
+	st.calls[calleeName(call)]++
 	if call.IsInvoke() {
 		recv := x.get(fr, call.Value)
 		x.invoke(st, fr, in, call, recv, args, k)
@@ -342,7 +341,7 @@ func (x *Exec) invoke(st *State, fr *Frame, in ssa.Instruction, call *ssa.CallCo
 		x.sess.Pop()
 		return
 	}
-	if x.eng.pureMethod(call.Method) {
+	if x.eng.pureMethod(call.Method) || (x.fc != nil && x.fc.Opts["invoke."+name] == "pure") {
 		// deterministic function of receiver (and heap): uninterpreted
 		res := sig.Results()
 		var vals []Val
@@ -623,7 +622,9 @@ func (x *Exec) builtin(st *State, fr *Frame, in ssa.Instruction, b *ssa.Builtin,
 		if m, ok := args[0].(MapV); ok {
 			kt, _, okk := x.mapKeyTerm(args[1])
 			class := "M|" + typeKey(m.Key) + "|" + typeKey(m.Elt)
-			x.frameCheckRef(st, fr, in, m.Ref, "map")
+			if !x.classAllowed(class) {
+				x.frameCheckRef(st, fr, in, m.Ref, "map")
+			}
 			if okk {
 				pres := x.heapArr(st, class+"|has", arrSort(2, "Bool"))
 				ln := x.heapArr(st, class+"|len", arrSort(1, "Int"))
@@ -803,6 +804,19 @@ func (x *Exec) modelExternal(st *State, fr *Frame, fn *ssa.Function, full string
 	return false
 }
 
+func (x *Exec) heldArr(st *State) string {
+	if st.ghost == nil {
+		st.ghost = map[string]string{}
+	}
+	if a, ok := st.ghost["held"]; ok {
+		return a
+	}
+	st.ghost["held"] = "((as const (Array Int Bool)) false)"
+	return st.ghost["held"]
+}
+
+// lockOp: sync.Mutex as ghost state held(mu). Lock requires !held (no
+// self-deadlock), Unlock requires held.
 func (x *Exec) lockOp(st *State, fr *Frame, in ssa.Instruction, full string, args []Val) {
 	if len(args) == 0 {
 		return
@@ -812,14 +826,24 @@ func (x *Exec) lockOp(st *State, fr *Frame, in ssa.Instruction, full string, arg
 		return
 	}
 	id := ptrTerm(p)
-	arr := x.heapArr(st, "G|held", arrSort(1, "Bool"))
+	arr := x.heldArr(st)
 	lock := strings.HasSuffix(full, "Lock") && !strings.HasSuffix(full, "Unlock")
+	name := x.fnDisplay(fr) + "/lock-discipline"
+	props := []string(nil)
+	if x.fc != nil {
+		props = x.fc.Props
+	}
+	pos := token.NoPos
+	if in != nil {
+		pos = in.Pos()
+	}
+	o := x.oblig(name, "lock-discipline", props, pos, "Lock only when not held, Unlock only when held (ghost held(mu))")
 	if lock {
-		x.safety(st, fr, in, "lock", "(not (select "+arr+" "+id+"))")
-		st.heap["G|held"] = "(store " + arr + " " + id + " true)"
+		x.check(st, o, "(not (select "+arr+" "+id+"))")
+		st.ghost["held"] = "(store " + arr + " " + id + " true)"
 	} else {
-		x.safety(st, fr, in, "unlock", "(select "+arr+" "+id+")")
-		st.heap["G|held"] = "(store " + arr + " " + id + " false)"
+		x.check(st, o, "(select "+arr+" "+id+")")
+		st.ghost["held"] = "(store " + arr + " " + id + " false)"
 	}
 }
 
